@@ -24,9 +24,9 @@ func (C10) Plan(tier string) core.Plan {
 
 func (C10) Info() core.Info {
 	return core.Info{
-		Rule: "general worlds (planned and random, all label features, cycles, generators) in which a Convert(T, args) and a Call of a simulator-made identity target func(T) T with the same options are run in one history (both orders), T concrete or interface, under the same seeded schedule. Oracle: on worlds in the stable classes of C05 (outcome independent of iteration order) Convert returns (v,nil) iff the Call succeeds; always: a returned value is assignable to T, its provenance PERMIT-matches a type-only parameter (T,\"\"), on failure the value is nil and the error non-nil; when the target's parameter resolution is unique (no converter involved, one candidate supply) both deliver the same token. Non-trivial: >=1 converter; distinct = distinct (world shape, event-log hash)",
+		Rule: "general worlds (planned and random, all label features, cycles, generators) in which a Convert(T, args) and a Call of a simulator-made identity target func(T) T with the same options are run in one history (both orders), T concrete or interface, under the same seeded schedule; some providers return a nil struct pointer on every execution so that the converted value is the zero value of T. Oracle: on worlds in the stable classes of C05 (outcome independent of iteration order) Convert returns (v,nil) iff the Call succeeds; always: a returned value is assignable to T, its provenance PERMIT-matches a type-only parameter (T,\"\"), on failure the value is nil and the error non-nil; when the target's parameter resolution is unique (no converter involved, one candidate supply) both deliver the same token. Non-trivial: >=1 converter; distinct = distinct (world shape, event-log hash)",
 		Assumptions: []string{"equivalence is asserted only on C05-stable worlds so that a legitimate difference in how many S1 choices the two entry points consume cannot be mistaken for disagreement"},
-		Probes:      []string{"c10_pairs", "c10_both_ok", "c10_both_fail", "c10_iface_target", "c10_value_checked", "s1_nonidentity_perms"},
+		Probes:      []string{"c10_pairs", "c10_both_ok", "c10_both_fail", "c10_iface_target", "c10_value_checked", "c10_zero_value_converted", "s1_nonidentity_perms"},
 		Real:        realComponents,
 		Simulated:   simComponents,
 	}
@@ -57,6 +57,17 @@ func (C10) Gen(r *simrt.RNG, tier string) core.Case {
 		breakWorld(r, &w)
 		args = w.Ops[0].Args
 	}
+	// providers returning a nil struct pointer: the converted value is then the zero value
+	if r.Chance(1, 4) {
+		for pi := 1; pi < len(w.Parties); pi++ {
+			if w.Parties[pi].OutForm == world.FormStruct && r.Bool() {
+				w.Parties[pi].OutForm = world.FormPtrStruct
+			}
+			if w.Parties[pi].OutForm == world.FormPtrStruct {
+				w.Faults = append(w.Faults, world.Fault{Kind: "nil_struct", Party: pi, Nth: 0})
+			}
+		}
+	}
 	call := world.Op{Kind: world.OpCall, Target: 0, Args: args}
 	conv := world.Op{Kind: world.OpConvert, Type: ty, Args: args}
 	if r.Bool() {
@@ -68,8 +79,13 @@ func (C10) Gen(r *simrt.RNG, tier string) core.Case {
 }
 
 func c10Valid(w world.World) bool {
-	if len(w.Ops) != 2 || len(w.Faults) != 0 {
+	if len(w.Ops) != 2 {
 		return false
+	}
+	for _, f := range w.Faults {
+		if f.Kind != "nil_struct" || f.Nth != 0 {
+			return false
+		}
 	}
 	var call, conv *world.Op
 	for i := range w.Ops {
@@ -131,6 +147,7 @@ func (C10) Run(c core.Case, ctx *core.Ctx) []core.Violation {
 	// stability class of the world, judged on the call alone
 	w1 := w.Clone()
 	w1.Ops = []world.Op{w.Ops[ci]}
+	w1.Faults = nil
 	stable := c05Class(&w1) != ""
 	view := model.ViewOf(&w, ci)
 	var out []core.Violation
@@ -155,7 +172,10 @@ func (C10) Run(c core.Case, ctx *core.Ctx) []core.Violation {
 			continue
 		}
 		if vr.Err == nil {
-			if vr.ConvNil || len(vr.Outs) != 1 {
+			if vr.ConvNil && world.IsIface(ty) && rt.FaultsFired["nil_struct"] > 0 {
+				// the zero value of an interface type is the nil interface
+				ctx.St.Inc("c10_zero_value_converted")
+			} else if vr.ConvNil || len(vr.Outs) != 1 {
 				add("convert-returned-nil-value-without-error", "Convert returned (nil, nil)")
 			} else {
 				ctx.St.Inc("c10_value_checked")
@@ -163,7 +183,9 @@ func (C10) Run(c core.Case, ctx *core.Ctx) []core.Violation {
 				if !world.Implements(vr.OutDyn[0], ty) {
 					add("convert-value-not-assignable", fmt.Sprintf("value of type %s is not assignable to %s", world.TypeName(vr.OutDyn[0]), world.TypeName(ty)))
 				}
-				if id == 0 || id >= uint64(len(rt.Tokens)) {
+				if id == 0 && rt.FaultsFired["nil_struct"] > 0 {
+					ctx.St.Inc("c10_zero_value_converted")
+				} else if id == 0 || id >= uint64(len(rt.Tokens)) {
 					add("convert-invented-value", fmt.Sprintf("Convert returned token %d", id))
 				} else if tk := rt.Tokens[id]; !model.Permit(tk.Label, world.Label{Type: ty}) {
 					add("convert-mislabelled-value", fmt.Sprintf("Convert(%s) returned a value labelled %s", world.TypeName(ty), tk.Label))
